@@ -244,35 +244,25 @@ impl<'store> ResultItem<'store, Annotation> {
         let mut suppress_auto_generated = false;
         let mut suppress_auto_generator = false;
 
-        let mut outputted_to_main = false;
-        //gather annotation properties (outside of body)
+        //gather annotation properties (outside of body), each is followed by a comma because the target always comes last
         for data in self.data() {
             let key = data.key();
             let key_id = key.id().expect("keys must have an ID");
             match data.set().id() {
                 Some(CONTEXT_ANNO) | Some(NS_ANNO) => match key_id {
                     "generated" => {
-                        if outputted_to_main {
-                            ann_out.push(',');
-                        }
                         suppress_auto_generated = true;
-                        outputted_to_main = true;
                         ann_out += &output_predicate_datavalue(key_id, data.value(), config);
+                        ann_out.push(',');
                     }
                     "generator" => {
-                        if outputted_to_main {
-                            ann_out.push(',');
-                        }
                         suppress_auto_generator = true;
-                        outputted_to_main = true;
                         ann_out += &output_predicate_datavalue(key_id, data.value(), config);
+                        ann_out.push(',');
                     }
                     "motivation" | "created" | "creator" => {
-                        if outputted_to_main {
-                            ann_out.push(',');
-                        }
-                        outputted_to_main = true;
                         ann_out += &output_predicate_datavalue(key_id, data.value(), config);
+                        ann_out.push(',');
                     }
                     key_id => {
                         //other predicates -> go into body
